@@ -1,7 +1,7 @@
 //! Family `iovw` (C03, C04, C05, C10, C20): a world of up to four OwningIovecs.
 //!   `{ @<i>:<op> }*` with op one of
 //!   new | pu:<hex> (push) | pc:<hex> (push_copy) | pb:<hex> (push_borrowed) | ex:<hex>,<hex>.. (extend)
-//!   | an:<hex> (read_n into the object's arena, push the slice, push_anchor) | rp:<hex> (register_patch)
+//!   | an:<hex>[:<count>] (read_n of count bytes (default: all) into the object's arena from a reader that holds <hex>, push the slice, push_anchor) | rp:<hex> (register_patch)
 //!   | bf:<slot>:<hex> (backfill_or_panic) | cs:<k> (consume) | ab:<k> (advance_slices) | pf (pop_front)
 //!   | rd:<k> (Read) | cl (clear) | fl (arena flush_cache) | ec:<n> (ensure_capacity) | ta (take_arena, dropped)
 //!   | sa (swap in a fresh arena, old one dropped) | cn:<j> (clone into j) | tk:<j> (take into j) | dr (drop)
@@ -176,7 +176,9 @@ pub fn run(line: &str) -> Obs {
                 }
                 "an" => {
                     let data = unhex(p[1]);
-                    let s = o.iov.arena().read_n(&data[..], data.len(), NonZeroUsize::MAX).unwrap();
+                    // an:<hex>:<count>: the reader delivers the bytes and then end of file (a short read when count is larger)
+                    let count: usize = if p.len() > 2 { p[2].parse().unwrap() } else { data.len() };
+                    let s = o.iov.arena().read_n(&data[..], count, NonZeroUsize::MAX).unwrap();
                     assert_eq!(s.slice(), &data[..]);
                     let (_, slice, anchor) = unsafe { s.components() };
                     if !slice.is_empty() {
